@@ -382,7 +382,7 @@ pub fn run(cfg: &Cfg, out: &mut Out) {
     let plans: Vec<(&str, &[(usize, Op)], Vec<Vec<Op>>, usize, usize)> = vec![
         ("commit|commit", &both_loaded, vec![vec![Commit], vec![Commit]], 1, 2000),
         ("commit|load", &diverged, vec![vec![Commit], vec![Load]], 1, if quick { 700 } else { 20000 }),
-        ("load|load", &diverged, vec![vec![Load], vec![Load]], 0, if quick { 1000 } else { 20000 }),
+        ("load|load", &diverged, vec![vec![Load], vec![Load]], 0, if quick { 300 } else { 20000 }),
         ("commit,load|commit", &both_loaded, vec![vec![Commit, Load], vec![Commit]], 0, if quick { 400 } else { 20000 }),
     ];
     for (label, setup, programs, max_crashes, budget) in plans {
